@@ -51,6 +51,9 @@ def run(ctx):
     ctx.rule("R07.4", "LEN-TAINT: arithmetic on a value assembled from buffer bytes is dominated by an edge on which that value was compared against an upper bound")
     ctx.rule("R07.5", "VALID-READS: every byte read of msg in rtosc_valid_message_p is dominated by an edge of a comparison involving len on which len is the larger side")
     ctx.rule("R07.6", "VALIDATOR-READER: per-tag payload class of rtosc_message_ring_length == arg_size == extract_arg")
+    ctx.rule("R07.7", "ACCEPTED => IN BOUNDS: rtosc_valid_message_p and, where it accepts, rtosc_narguments / rtosc_argument_string / rtosc_type / rtosc_argument / rtosc_itr_begin, "
+                      "evaluated on malformed buffers of exactly n bytes (all 8-byte buffers `/...,xyz` over six byte values, every probe message cut at every offset, "
+                      "with each zero byte made non-zero, with each blob length replaced by boundary values), read only inside the n bytes, and the payload each argument's pointer announces lies inside them")
 
     # ---- R07.1
     # byte accessors: deref() itself and helpers of the unit that read only through an accessor (e.g. a big-endian word
@@ -217,6 +220,37 @@ def run(ctx):
     ctx.ob("R07.6", "string whose first byte is NUL", not badh, site=A.where(fring), detail={"mismatches": badh},
            key="R07.6:evaluated:hostile string",
            what="validator and readers end a string argument whose first byte is NUL at different places: %s - a message the validator accepts is then decoded at other offsets" % badh[:2])
+
+    # ---- R07.7
+    import itertools
+    fam = {"all 8-byte buffers `/\\0\\0\\0,xyz`": [b"/\0\0\0," + bytes(t_) for t_ in itertools.product((0, 1, ord("i"), ord("s"), ord("b"), 0xff), repeat=3)],
+           "probe messages cut at every offset": [], "probe messages with one zero byte made non-zero": [], "probe messages with a blob length replaced": []}
+    for adr, ty, va in OR.PROBES:
+        data, slots = OR.layout(adr, ty, va)
+        fam["probe messages cut at every offset"] += [data[:k_] for k_ in range(1, len(data))]
+        fam["probe messages with one zero byte made non-zero"] += [data[:i_] + b"\1" + data[i_ + 1:] for i_, b_ in enumerate(data) if b_ == 0]
+        for t_, off in slots:
+            if t_ == "b" and off is not None:
+                ln = int.from_bytes(data[off:off + 4], "big")
+                for v_ in (ln + 1, ln + 4, ln + 5, 0x7fffffff, 0x80000000, 0xfffffffc, 0xffffffff):
+                    fam["probe messages with a blob length replaced"].append(data[:off] + (v_ & 0xffffffff).to_bytes(4, "big") + data[off + 4:])
+    fval = u.function("rtosc_valid_message_p")
+    for name, bufs in fam.items():
+        bufs = list(dict.fromkeys(bufs))
+        badb, nacc = [], 0
+        for d_ in bufs:
+            try:
+                r_ = OR.accepted_in_bounds(u, d_)
+            except FD.Unknown as e:
+                raise AnalysisBroken("R07.7: validator / accessors not evaluable on %s: %s" % (d_.hex(), e))
+            if r_ is None:
+                continue
+            nacc += 1
+            if r_:
+                badb.append({"buffer": d_.hex(), "length": len(d_), "leaves_the_buffer": r_[:3]})
+        ctx.ob("R07.7", name, not badb, site=A.where(fval), detail={"buffers": len(bufs), "accepted": nacc, "out_of_bounds": len(badb), "examples": badb[:4]},
+               key="R07.7:%s" % name.split("`")[0].strip(),
+               what="on %d of %d accepted buffers (%s) the validity predicate or an accessor reads outside the buffer: %s" % (len(badb), nacc, name, badb[:2]))
 
 
 def _contains(root, node):
